@@ -28,6 +28,7 @@ def registry : List Obj := [
   sporkObj,
   pureObj purePool,
   pureObj pureRewards,
+  pureObj purePoints,
   mkObj (⟨[], none⟩ : ZV.Pool.PState) poolStep,
   pureObj pureElection,
   pureObj pureTicker,
@@ -36,6 +37,7 @@ def registry : List Obj := [
   pureObj pureAddMomentum,
   pureObj pureCodec,
   pureObj pureWallet,
+  walletSeqObj,
   pureObj pureGenesis,
   pureObj VerifyD.pureVerify,
   pureObj pureProto,
